@@ -159,10 +159,43 @@ package oidc
 //@   requires optime: RDB[r.client.pay][sessionID].exp == TZERO || RDB[r.client.pay][sessionID].exp <= Clk || RDB[r.client.pay][sessionID].exp > ROpEnd
 //@   invariant dbwf: forall x string :: RKeyWF(RDB[r.client.pay][x], r.absoluteSessionTimeout, r.idleSessionTimeout)
 //@   view View: RedisView(r, sid)
-//@   private ghost RDB, ghost Clk
+//@   private ghost RDB, ghost Clk, ghost RFailed
 
 //@ func (*redisStore).refreshExpiration
 //@   inline
+
+// Every failure of a Redis command is reported to the caller (no store operation succeeds over a
+// failed command). Shown without the nofault assumption.
+//@ func (*redisStore).SetTokenResponse
+//@   requires wf: r != nil && r.log != nil && r.clock != nil && r.client != nil && tokenResponse != nil
+//@   requires clean: !RFailed
+//@   modifies ghost RDB, ghost Clk, ghost RFailed, above(watermark())
+//@   ensures  faults_reported: result == nil ==> !RFailed
+//@ func (*redisStore).SetAuthorizationState
+//@   requires wf: r != nil && r.log != nil && r.clock != nil && r.client != nil && authorizationState != nil
+//@   requires clean: !RFailed
+//@   modifies ghost RDB, ghost Clk, ghost RFailed, above(watermark())
+//@   ensures  faults_reported: result == nil ==> !RFailed
+//@ func (*redisStore).ClearAuthorizationState
+//@   requires wf: r != nil && r.log != nil && r.clock != nil && r.client != nil
+//@   requires clean: !RFailed
+//@   modifies ghost RDB, ghost Clk, ghost RFailed, above(watermark())
+//@   ensures  faults_reported: result == nil ==> !RFailed
+//@ func (*redisStore).RemoveSession
+//@   requires wf: r != nil && r.log != nil && r.clock != nil && r.client != nil
+//@   requires clean: !RFailed
+//@   modifies ghost RDB, ghost Clk, ghost RFailed, above(watermark())
+//@   ensures  faults_reported: result == nil ==> !RFailed
+//@ func (*redisStore).GetTokenResponse
+//@   requires wf: r != nil && r.log != nil && r.clock != nil && r.client != nil
+//@   requires clean: !RFailed
+//@   modifies ghost RDB, ghost Clk, ghost RFailed, above(watermark())
+//@   ensures  faults_reported: result1 == nil ==> !RFailed
+//@ func (*redisStore).GetAuthorizationState
+//@   requires wf: r != nil && r.log != nil && r.clock != nil && r.client != nil
+//@   requires clean: !RFailed
+//@   modifies ghost RDB, ghost Clk, ghost RFailed, above(watermark())
+//@   ensures  faults_reported: result1 == nil ==> !RFailed
 
 // ---------------------------------------------------------------------------------------------
 // DefaultJWKSProvider implements JWKSProvider (C02): the key set handed to the handler is the one
